@@ -11,7 +11,7 @@
 //!   it) and every executed operation is appended to an event log the oracles read.
 //!
 //! Supported query language: top-level equality filters, `$set` updates (dotted paths),
-//! whole-document replacement, one unique single-field index per collection. That is all the
+//! whole-document replacement, unique (single-field or compound) indexes. That is all the
 //! server uses; anything else panics loudly (harness error), never silently misbehaves.
 
 pub use bson;
@@ -401,7 +401,8 @@ struct StoredDoc {
 #[derive(Default)]
 struct Coll {
     docs: Vec<StoredDoc>,
-    unique: Vec<String>,
+    /// unique indexes, each over one or more fields (a compound index constrains the tuple)
+    unique: Vec<Vec<String>>,
 }
 
 #[derive(Default)]
@@ -453,11 +454,14 @@ fn fault() -> error::Error {
 }
 
 fn violates_unique(coll: &Coll, candidate: &Document, except_id: Option<u64>) -> Option<String> {
-    for key in &coll.unique {
-        if let Some(v) = candidate.get(key) {
-            if coll.docs.iter().any(|d| Some(d.id) != except_id && d.doc.get(key) == Some(v)) {
-                return Some(format!("E11000 duplicate key error collection index: {key}_1 dup key: {{ {key}: {v} }}"));
-            }
+    // a missing field indexes as null, like in MongoDB
+    let field = |d: &Document, k: &str| d.get(k).cloned().unwrap_or(bson::Bson::Null);
+    for keys in &coll.unique {
+        let cand: Vec<bson::Bson> = keys.iter().map(|k| field(candidate, k)).collect();
+        if coll.docs.iter().any(|d| Some(d.id) != except_id && keys.iter().map(|k| field(&d.doc, k)).collect::<Vec<_>>() == cand) {
+            let name = keys.iter().map(|k| format!("{k}_1")).collect::<Vec<_>>().join("_");
+            let dup = keys.iter().zip(cand.iter()).map(|(k, v)| format!("{k}: {v}")).collect::<Vec<_>>().join(", ");
+            return Some(format!("E11000 duplicate key error collection index: {name} dup key: {{ {dup} }}"));
         }
     }
     None
@@ -556,15 +560,15 @@ impl<T> Collection<T> {
         if o != Outcome::Ok {
             return Err(fault());
         }
-        let key = index.keys.keys().next().cloned().unwrap_or_default();
-        if index.options.as_ref().and_then(|o| o.unique) == Some(true) {
+        let keys: Vec<String> = index.keys.keys().cloned().collect();
+        if index.options.as_ref().and_then(|o| o.unique) == Some(true) && !keys.is_empty() {
             let mut st = self.client.store.lock().unwrap();
             let c = st.colls.entry(self.name.clone()).or_default();
-            if !c.unique.contains(&key) {
-                c.unique.push(key.clone());
+            if !c.unique.contains(&keys) {
+                c.unique.push(keys.clone());
             }
         }
-        Ok(results::CreateIndexResult { index_name: format!("{key}_1") })
+        Ok(results::CreateIndexResult { index_name: keys.iter().map(|k| format!("{k}_1")).collect::<Vec<_>>().join("_") })
     }
 
     pub async fn delete_one(
